@@ -43,6 +43,22 @@ uint8_t *x__Znam(uint64_t n)
 }
 static ELT *big, *buf0;      /* the pre-state array is the tail of one heap object of NS elements: it ends where the object ends */
 void x__ZdaPv(uint8_t *p) { n_del++; if (p != 0 && p == (uint8_t*)buf0) free(big); else free(p); }
+/* memcpy/memmove with symbolic lengths: element-wise copies (CBMC's built-ins are exact for constant sizes only); every
+   length the set code passes is a whole number of elements */
+void *memcpy(void *d, const void *s, size_t n)
+{
+  __CPROVER_assert(n % sizeof(ELT) == 0 && n <= CMAX * sizeof(ELT), "C12: copy length is a whole number of elements within the modelled range");
+  for (size_t i = 0; i < CMAX; i++) if (i * sizeof(ELT) < n) ((ELT*)d)[i] = ((const ELT*)s)[i];
+  return d;
+}
+void *memmove(void *d, const void *s, size_t n)
+{
+  ELT tmp[CMAX];
+  __CPROVER_assert(n % sizeof(ELT) == 0 && n <= CMAX * sizeof(ELT), "C12: move length is a whole number of elements within the modelled range");
+  for (size_t i = 0; i < CMAX; i++) if (i * sizeof(ELT) < n) tmp[i] = ((const ELT*)s)[i];
+  for (size_t i = 0; i < CMAX; i++) if (i * sizeof(ELT) < n) ((ELT*)d)[i] = tmp[i];
+  return d;
+}
 static SETT the_set;
 uint16_t cx_k[NS], cx_key, cx_key2; uint64_t cx_sz, cx_rsz, cx_reserve; int32_t cx_null, cx_op, cx_set;
 int main(void)
